@@ -16,7 +16,7 @@ Definition n_of (i : int) : N := Z.to_N (Uint63.to_Z i).
 
 Inductive caseP :=
 | Pk (dec : int) (input : list int) (outcome : int) (reenc : list int) (cmp : int)
-| Frame (bytes : list int) (len outcome : int) (reenc : list int) (tag lenv tagged tci ethertype : int)
+| Frame (bytes : list int) (len outcome : int) (reenc : list int) (tag lenv tagged tci ethertype fields_equal : int)
 | Lane (code : int) (ws : list int).
 
 Definition run_dec (code : N) (d : list byte) : option (res tree) :=
@@ -83,7 +83,7 @@ Definition model_tag (t : tree) : N :=
   | _ => 0
   end.
 
-Definition check_frame (b : list byte) (len oc : N) (re : list byte) (tag lenv tagged tci et : N) : verdict :=
+Definition check_frame (b : list byte) (len oc : N) (re : list byte) (tag lenv tagged tci et same : N) : verdict :=
   let agree := match dec_eth b with
                | Ok t => N.eqb oc 0 && bytes_eqb (wire t) re && N.eqb (model_tag t) tag && N.eqb (size t) lenv
                | Err => N.eqb oc 1
@@ -92,7 +92,7 @@ Definition check_frame (b : list byte) (len oc : N) (re : list byte) (tag lenv t
   let common := N.eqb oc 0 && bytes_eqb re b && N.eqb len n && N.eqb lenv n && N.eqb (spec_demux b) tag in
   let tag_ok := if N.eqb tagged 1 then N.eqb (u16_at b 12) 33024 && N.eqb (u16_at b 14) tci && N.eqb (u16_at b 16) et
                 else N.eqb (u16_at b 12) et in
-  if common && tag_ok then mkv agree true
+  if common && tag_ok && N.eqb same 1 then mkv agree true
   else if agree && common && N.eqb tagged 1 && N.eqb (N.land tci 4095) 0 && N.eqb (u16_at b 12) et then VKnown 31
   else mkv agree false.
 
@@ -146,8 +146,8 @@ Fixpoint lanes_v6 (ws : list N) (a c : bool) : bool * bool :=
 
 Definition check09 (c : caseP) : verdict :=
   match c with
-  | Frame b len oc re tag lenv tagged tci et =>
-    check_frame (unpack b) (n_of len) (n_of oc) (unpack re) (n_of tag) (n_of lenv) (n_of tagged) (n_of tci) (n_of et)
+  | Frame b len oc re tag lenv tagged tci et same =>
+    check_frame (unpack b) (n_of len) (n_of oc) (unpack re) (n_of tag) (n_of lenv) (n_of tagged) (n_of tci) (n_of et) (n_of same)
   | Lane code ws =>
     let '(a, c) := if N.eqb (n_of code) 5 then lanes_v6 (ns ws) true true else lanes (n_of code) (ns ws) true true in
     mkv a c
